@@ -419,9 +419,18 @@ def _desugar_match(tree) -> bool:
                         t = _pattern_test(copy.deepcopy(subj), case.pattern, binds)
                         body = [ast.copy_location(ast.Assign(targets=[ast.Name(id=nm, ctx=ast.Store())], value=copy.deepcopy(e)), case.body[0]) for nm, e in binds] + case.body
                         if case.guard is not None:
+                            guard = case.guard
                             if binds:
-                                raise _NoDesugar()
-                            t = case.guard if t is None else ast.BoolOp(op=ast.And(), values=[t, case.guard])
+                                # case small if small < n:  the guard speaks about the captured value, i.e. about the subject
+                                env = {nm: e for nm, e in binds}
+
+                                class _S(ast.NodeTransformer):
+                                    def visit_Name(self, n_):
+                                        if isinstance(n_.ctx, ast.Load) and n_.id in env:
+                                            return copy.deepcopy(env[n_.id])
+                                        return n_
+                                guard = _S().visit(copy.deepcopy(guard))
+                            t = guard if t is None else ast.BoolOp(op=ast.And(), values=[t, guard])
                         arms.append((t, body))
                 except _NoDesugar:
                     continue
